@@ -60,7 +60,8 @@ SeqKinds(s, fs, root, o) ==
 \* With follow, a link whose target is itself a link (a chain) is not settled by the documentation: Entry::follow swaps
 \* one level only, Stdfs then lists the final directory under the intermediate link's path, Memfs reports the
 \* intermediate link as a directory without contents (DESIGN 3.2.1: stale / chained links "not settled").  A traversal
-\* that meets such a link is only held to the spec when it happens to agree with it; otherwise it is counted as unsettled.
+\* that meets such a link on Stdfs is only held to the spec when it happens to agree with it; otherwise it is counted as
+\* unsettled (Memfs is still judged: it implements the one-level reading the spec writes down).
 ChainHit(fs, root, o) == o.follow /\ \E v \in Visits(fs, root, o) : v.e.islink /\ v.e.isdir /\ v.e.rp \in DOMAIN fs /\ fs[v.e.rp].k = "link"
 \* who produced sequence number i
 Producers(r, i) == LET B == {r.runs[j].be : j \in {x \in Idx(r.runs) : r.runs[x].s = i}} IN
@@ -71,7 +72,7 @@ JudgeSeq(r, fs, o, exp, i) == LET q == r.seqs[i]  who == Producers(r, i) IN
   ELSE IF q.o = "panic" THEN << BadT(r, fs, o, who, "panic") >>
   ELSE IF q.o # "ok" THEN << BadT(r, fs, o, who, "entries: " \o q.o) >>
   ELSE IF q.s = exp THEN <<>>                                            \* Expected is one admissible order
-  ELSE IF ChainHit(fs, r.root, o) THEN << <<"unsettled", "follow through a link chain", who>> >>
+  ELSE IF who = "stdfs" /\ ChainHit(fs, r.root, o) THEN << <<"unsettled", "follow through a link chain", who>> >>
   ELSE LET ks == SeqKinds(q.s, fs, r.root, o) IN
        IF ks = <<>> THEN (IF UniqueKeys(fs, r.root, o) THEN << <<"BAD", "spec", "valid-but-not-expected">> >> ELSE <<>>)
        ELSE IF ks = << "skip: ambiguous" >> THEN << <<"skip", "ambiguous assignments">> >>
